@@ -174,13 +174,11 @@ type Built struct {
 type MapLoader struct {
 	M    map[cid.Cid]*delegation.Token
 	Errs map[cid.Cid]bool
-	Gets int
 }
 
 var ErrLoaderIO = errors.New("loader: storage unavailable")
 
 func (m *MapLoader) GetDelegation(c cid.Cid) (*delegation.Token, error) {
-	m.Gets++
 	if m.Errs[c] {
 		return nil, ErrLoaderIO
 	}
